@@ -277,6 +277,9 @@ func (c *schemaCtx) field(key, path, parentSchema, fieldName string, t *Type, f 
 			if r.ExclusiveMax != nil && *r.ExclusiveMax {
 				c.add(key, kp+".rules.exclusive_maximum", "true")
 			}
+			if r.MultipleOf != nil {
+				c.add(key, kp+".rules.multiple_of", strconv.FormatInt(*r.MultipleOf, 10))
+			}
 		}
 	case "float":
 		c.add(key, kp+".format", "FORMAT_"+t.Format)
@@ -328,6 +331,14 @@ func (c *schemaCtx) field(key, path, parentSchema, fieldName string, t *Type, f 
 	case "object":
 		if t.Flatten {
 			c.add(key, kp+".flatten", "true")
+		}
+		if r != nil {
+			if r.MinProps != nil {
+				c.add(key, kp+".rules.min_properties", u(r.MinProps))
+			}
+			if r.MaxProps != nil {
+				c.add(key, kp+".rules.max_properties", u(r.MaxProps))
+			}
 		}
 		if t.Ref != nil {
 			c.ref(key, kp, t.Ref)
